@@ -514,7 +514,7 @@ def process_op_for_jump(
             our_routine_id = routine_id
             # We need to calculate the routine ID based on the offset, because it might be that the label is in a
             # LATER routine we haven't passed yet or even in one before.
-            while routine_id > 0 and old_offset < routine_end_offsets[routine_id - 1]:
+            while routine_id > 0 and old_offset <= routine_end_offsets[routine_id - 1]:
                 routine_id -= 1
             while old_offset > routine_end_offsets[routine_id]:
                 routine_id += 1
